@@ -529,14 +529,52 @@ class Driver:
             case.watchdog_ms = old
             d.close()
 
+    def healthy(self, budget_s=15.0):
+        """Can this machine still run the driver at all?  A trivial case in a fresh driver must come back (any result that is
+        an answer of jawk, i.e. not abort / timeout) within a generous budget.  When memory is exhausted (the driver dies on its
+        first allocation, fork fails) or the machine is hopelessly overloaded, an abort or timeout of the case under
+        suspicion says nothing about jawk."""
+        t0 = time.time()
+        d = Driver(self.path, self.scratch + "-probe", self.wrapper, self.env, self.cmd, self.cwd, self.stderr_path)
+        try:
+            o = d.run(Case([], b'1 [2] {"a":3}\n'))
+        except Exception:
+            return False
+        finally:
+            try:
+                d.close()
+            except Exception:
+                pass
+        if self.cmd or self.wrapper:
+            budget_s *= 40          # Miri / valgrind start slowly
+        return o.result not in ("abort", "timeout") and time.time() - t0 < budget_s
+
     def confirm(self, case, obs):
-        """If obs is a timeout/abort, re-run in isolation; returns (obs, confirmed?)."""
+        """If obs is a timeout/abort, re-run in isolation; returns (obs, confirmed?).
+
+        Confirmed means: the machine is demonstrably able to run the driver right before and right after (healthy()), and the
+        isolated re-run ends the same way - for an abort three times, a few seconds apart (an abort is cheap to repeat, and a
+        driver killed for lack of memory looks exactly like one that jawk took down).  Anything else is not a verdict."""
         if obs.result not in ("timeout", "abort"):
             return obs, True
-        o2 = self.run_isolated(case)
-        if o2.result == obs.result:
-            return o2, True
-        return o2, False
+        o2 = obs
+        pauses = (0, 2, 6) if obs.result == "abort" else (0,)
+        for pause in pauses:
+            if pause:
+                time.sleep(pause)
+            if not self.healthy():
+                self.unhealthy = getattr(self, "unhealthy", 0) + 1
+                return o2, False
+            try:
+                o2 = self.run_isolated(case)
+            except Exception:
+                return obs, False
+            if o2.result != obs.result:
+                return o2, False
+            if not self.healthy():
+                self.unhealthy = getattr(self, "unhealthy", 0) + 1
+                return o2, False
+        return o2, True
 
 
 # --------------------------------------------------------------------------
@@ -658,9 +696,13 @@ def _worker_entry(a):
         ctx.drv.close()
         shutil.rmtree(ctx.scratch, ignore_errors=True)
         shutil.rmtree(ctx.scratch + "-iso", ignore_errors=True)
+        shutil.rmtree(ctx.scratch + "-probe", ignore_errors=True)
+        shutil.rmtree(ctx.scratch + "-probe-iso", ignore_errors=True)
     ctx.stats.count("driver_executions", ctx.drv.executions)
     ctx.stats.count("driver_restarts", ctx.drv.restarts)
     ctx.stats.count("isolated_reruns", ctx.drv.isolated_reruns)
+    if getattr(ctx.drv, "unhealthy", 0):
+        ctx.stats.count("machine_unhealthy_at_confirmation", ctx.drv.unhealthy)
     return ctx.stats
 
 
